@@ -53,6 +53,33 @@ CHECKS = {
    note="Well-formedness of SQLite-written trees (sep_ok, sortedness) is SQLite's invariant; validated by the oracle comparison.",
    technique="Coq proof (from-key descent = lookup in the sorted flattening) + differential execution model vs Go vs SQLite",
    design="DESIGN.md section 6, C04"),
+ "C12": dict(
+   text="Coq: the table and index traversals deliver the rows up to the first failing page / cell and then report that failure (C12_table_iter, C12_index_iter: iter = deliver the "
+        "flattening, where the flattening stops at the first error); for ANY set of page reads turned into failures the rows a scan sees are the fault-free rows or a prefix of them "
+        "followed by an error (C12_table_rows, C12_index_rows, C12_table_scan, C12_index_scan, C12_store; overflow pages included). Every run: the k-th physical read of every "
+        "operation (low level and high level, incl. the nested lookups of the indexed selects) fails, for every k up to the fault-free read count, as I/O error and as short read; "
+        "the verdict is the property predicate itself; always-failing pages are run through the extracted model and the implementation.",
+   note="The unbounded theorems cover the full scans; for the from-key scans, Table.Rowid and the high level operations the model contains the error paths (incl. the error-remembering "
+        "bisection) and is compared with the code under faults on every run, but the prefix theorem for them is not proved yet (partial). RLock failure is covered by C06/C07.",
+   technique="Coq proof (fault monotonicity of the tree flattening) + exhaustive k-th-read fault injection on the Go code + model/implementation differential under faults",
+   design="DESIGN.md section 6, C12"),
+ "C13": dict(
+   text="Coq: for every index tree the code accepts and every predicate that is false*true* along the full scan, the from-key traversal - Go's sort.Search bisection at every page, "
+        "first child searched, later children iterated, interior entries emitted in between - delivers exactly the suffix starting at the first entry not less than the key "
+        "(C13_itermin, C13_scan_min); ScanRange / ScanEq deliver the take_while segments of it (C13_scan_range, C13_scan_eq), which are the filters 'not less than' / 'equal' when "
+        "the scan is ordered for the key (C13_min_is_filter, C13_eq_is_filter). Every run: cut points at every interior-page entry, its neighbours, first/last/random entries, every "
+        "prefix length, neighbour values, over-long keys, against the reference filter of the implementation's own full scan (independent comparator) and the extracted model.",
+   note="Monotonicity of Search(key) along a SQLite-written index follows from C11; validated on every run (the check verifies the full scan is sorted by the index order).",
+   technique="Coq proof (bisection lemma + induction over the depth budget) + differential execution model vs Go vs reference filter",
+   design="DESIGN.md section 6, C13"),
+ "C17": dict(
+   text="Coq: for any list of rows and any k in 1..n the stopping callback receives exactly the first k rows, in order, exactly k invocations, result 'stopped' and no error (C17_prefix, "
+        "C17_calls); for every callback, once it says done it is never invoked again (C17_never_again); lifted to Table.Scan, Index.Scan, ScanMin, ScanRange, ScanEq over every tree "
+        "the code accepts through traversal = flattening (C17_table_scan ... C17_scan_eq). Every run: every k on small results, and on deep trees the rows around interior-page entries, "
+        "every row of leaves under right-most pointers, leaf ends; SelectDone incl. lock release; from-key scans for every k up to 40.",
+   note="Lock release after the call is observed through the harness pager (lock/unlock events); the OS-level lock is C06's subject.",
+   technique="Coq proof (early stop = firstn, by induction) + differential execution for structural stop positions",
+   design="DESIGN.md section 6, C17"),
 }
 
 NOT_YET = {}
